@@ -1,6 +1,10 @@
 (* C03 -- property theorems only.  Each is closed by `exact <lemma>`. *)
 From Coq Require Import ZArith NArith List Bool Arith Permutation String.
 From SV Require Import Common.GoInt C03.Model C03.Spec C03.ProofsOrder C03.ProofsTable C03.ProofsMachine C03.MapRanges C03.ProofsStatements.
+(* C12 is loaded here but its names are imported only in the last part of this file
+   (the theorems about C12's model of hashtable.go), after every statement above it *)
+From SV Require C12.Ops C12.Spec C12.Concrete C12.ProofsBase C12.Properties.
+From SV Require Import C03.ModelC12 C03.ProofsC12.
 Import ListNotations.
 Open Scope nat_scope.
 
@@ -34,8 +38,12 @@ Proof. exact user_hash_seedless_stmt. Qed.
 
 (* an insertion-ordered table exposes the same results (lookups, deletions,
    popitem, iteration order, length) under any two hash functions, for every
-   operation history.  Proved over the bucketed model of Model.v; that the real
-   hashtable.go refines an insertion-ordered map is C12's theorem. *)
+   operation history.  This one is over the simple bucketed table of Model.v;
+   the same statement for the REAL table -- C12's pointer-level model of
+   hashtable.go (8-entry buckets, overflow chains, grow, the next / prevLink
+   list) -- is real_table_order_independent_of_hash below, a proved corollary of
+   C12's refinement theorems (no longer an assumed dependency), and
+   exec_deterministic_real_table is this machine run over that table. *)
 Theorem order_independent_of_hash :
   forall (h1 h2 : bytes -> nat) p a ops,
     perm_ok p ->
@@ -94,3 +102,174 @@ Example internal_hash_is_seeded :
   internal_hash (fun _ => 1%Z) (k 1) <> internal_hash (fun _ => 2%Z) (k 1) /\
   internal_hash (fun _ => 1%Z) [104%N; 105%N] = internal_hash (fun _ => 2%Z) [104%N; 105%N].
 Proof. vm_compute. split; [discriminate | reflexivity]. Qed.
+
+(* ======================================================================== *)
+(* The REAL table.  C12/Concrete.v is the pointer-level model of
+   starlark/hashtable.go, parametrised by an arbitrary hash function; C12 proves
+   that it refines an association list that does not mention the hash.  The
+   theorems below are corollaries of C12's theorems (refinement_init / _step /
+   _history / _observe), instantiated once per hash function.               *)
+
+(* The machine of Model.v with its dict operations run on C12's model
+   (ModelC12.v: rstep / rrun; errors of C12's model propagate as errors).  For
+   any two string-hash functions and any two map-enumeration oracles, for every
+   operation history: neither run fails (no OutOfFuel, no Dangling pointer), the
+   two transcripts (outputs, iteration orders, listings, hash values, step
+   count) are equal, and they are the specification machine's. *)
+Theorem exec_deterministic_real_table :
+  forall (h1 h2 : bytes -> N) (p1 p2 : list bytes -> list bytes) (ops : list op),
+    perm_ok p1 -> perm_ok p2 ->
+    exists s1 s2, rrun h1 p1 ops = C12.Concrete.Ok s1 /\ rrun h2 p2 ops = C12.Concrete.Ok s2 /\
+                  rtranscript s1 = rtranscript s2 /\ rtranscript s1 = spec_transcript ops.
+Proof. exact exec_deterministic_real_table_lemma. Qed.
+
+(* the same over the environments of exec_deterministic; moreover the machine
+   over the real table and the machine over the simple bucketed table of Model.v
+   have the same transcript (they cannot be told apart by any history) *)
+Theorem exec_deterministic_real_table_env :
+  forall (e1 e2 : env) (ops : list op),
+    perm_ok (e_perm e1) -> perm_ok (e_perm e2) ->
+    exists s1 s2, rrun_env e1 ops = C12.Concrete.Ok s1 /\ rrun_env e2 ops = C12.Concrete.Ok s2 /\
+                  rtranscript s1 = rtranscript s2 /\
+                  rtranscript s1 = transcript (run e1 ops).
+Proof. exact exec_deterministic_real_table_env_lemma. Qed.
+
+(* Non-vacuity: the environments and the history of premises_hold on the real
+   table.  Under env_a every key has the same hash (its length, 13): one chain,
+   which overflows into a second bucket; under env_b the hashes are distinct. *)
+Definition rt_summary (e : env) : option ((list event * nat) * (nat * nat)) :=
+  match rrun_env e history with
+  | C12.Concrete.Ok s => Some (rtranscript s, (C12.Concrete.nb (r_table s), C12.Concrete.max_chain (r_table s)))
+  | _ => None
+  end.
+
+Example real_table_machine_premises_hold :
+  perm_ok (e_perm env_a) /\ perm_ok (e_perm env_b) /\
+  option_map fst (rt_summary env_a) = Some (transcript (run env_a history)) /\
+  option_map fst (rt_summary env_b) = Some (transcript (run env_a history)) /\
+  option_map snd (rt_summary env_a) = Some (2, 2) /\     (* 2 chains, one of them 2 buckets long *)
+  option_map snd (rt_summary env_b) = Some (2, 1).       (* 2 chains of one bucket *)
+Proof.
+  split; [intros l; apply Permutation_refl|].
+  split; [intros l; apply Permutation_sym, Permutation_rev|].
+  vm_compute. repeat split.
+Qed.
+
+(* ------------------------------------------------------------------------ *)
+From SV Require Import C12.Ops C12.Spec C12.Concrete C12.ProofsBase C12.Properties.
+(* from here on op / state / run / step / spec_run ... are C12's *)
+
+(* order_independent_of_hash for the real table, at full strength: for ANY key
+   type with a decidable equality, ANY values, ANY two hash functions h1 h2 (all
+   collision patterns, hash 0 included) and EVERY operation history over C12's 15
+   operations (insert, lookup, delete, discard, clear, popitem, setdefault,
+   update, dict union, set union / intersection / difference / symmetric
+   difference, issubset, issuperset), running C12's model of hashtable.go from
+   the empty table under h1 and under h2:
+     - both runs succeed and return the SAME output for every operation,
+     - the final tables have identical items (keys and values, in iteration
+       order), len, first element and identical lookups for every key,
+     - the observations made after EVERY operation (output, len, items) are
+       identical,
+   and the common values are those of the association list of C12/Spec.v, whose
+   definition has no hash function at all. *)
+Theorem real_table_order_independent_of_hash :
+  forall (K V : Type) (eqb : K -> K -> bool), eq_ok eqb ->
+  forall (vnone : V) (h1 h2 : K -> N) (os : list (op K V)),
+    let outs := snd (spec_run eqb vnone [] os) in
+    let final := fst (spec_run eqb vnone [] os) in
+    exists s1 s2 : @state K V,
+      run eqb h1 vnone zero_state os = Ok (s1, outs) /\
+      run eqb h2 vnone zero_state os = Ok (s2, outs) /\
+      items s1 = Ok final /\ items s2 = Ok final /\
+      len s1 = List.length final /\ len s2 = List.length final /\
+      first s1 = first s2 /\
+      (forall k, lookup eqb h1 s1 k = lookup eqb h2 s2 k) /\
+      (forall k, lookup eqb h1 s1 k = sp_lookup eqb final k) /\
+      exists tr, trace eqb h1 vnone zero_state os = Ok tr /\ trace eqb h2 vnone zero_state os = Ok tr /\
+                 tr = map obs_of_spec (spec_trace eqb vnone [] os).
+Proof. exact (@real_table_order_independent_of_hash_lemma). Qed.
+
+(* the same from ANY two well-formed tables that hold the same list l (R is C12's
+   invariant + abstraction: "s is well formed and its insertion-order list reads
+   l"): tables of different sizes, with different tombstone / overflow layouts,
+   reached along different histories, under different hash functions *)
+Theorem real_table_order_independent_of_hash_any_start :
+  forall (K V : Type) (eqb : K -> K -> bool), eq_ok eqb ->
+  forall (vnone : V) (h1 h2 : K -> N) (os : list (op K V)) (s1 s2 : @state K V) (l : list (K * V)),
+    R h1 s1 l -> R h2 s2 l ->
+    let outs := snd (spec_run eqb vnone l os) in
+    let final := fst (spec_run eqb vnone l os) in
+    exists s1' s2' : @state K V,
+      run eqb h1 vnone s1 os = Ok (s1', outs) /\
+      run eqb h2 vnone s2 os = Ok (s2', outs) /\
+      R h1 s1' final /\ R h2 s2' final /\
+      items s1' = Ok final /\ items s2' = Ok final /\
+      len s1' = List.length final /\ len s2' = List.length final /\
+      first s1' = first s2' /\
+      (forall k, lookup eqb h1 s1' k = lookup eqb h2 s2' k) /\
+      (forall k, lookup eqb h1 s1' k = sp_lookup eqb final k) /\
+      exists tr, trace eqb h1 vnone s1 os = Ok tr /\ trace eqb h2 vnone s2 os = Ok tr /\
+                 tr = map obs_of_spec (spec_trace eqb vnone l os).
+Proof. exact (@hash_independent_from). Qed.
+
+(* in particular pre-sized tables: NewDict(n1) under h1 and NewDict(n2) under h2 *)
+Theorem real_table_presized_independent_of_hash :
+  forall (K V : Type) (eqb : K -> K -> bool), eq_ok eqb ->
+  forall (vnone : V) (h1 h2 : K -> N) (n1 n2 : nat) (os : list (op K V)),
+    exists t1 t2 s1 s2 : @state K V,
+      init n1 = Ok t1 /\ init n2 = Ok t2 /\
+      run eqb h1 vnone t1 os = Ok (s1, snd (spec_run eqb vnone [] os)) /\
+      run eqb h2 vnone t2 os = Ok (s2, snd (spec_run eqb vnone [] os)) /\
+      items s1 = Ok (fst (spec_run eqb vnone [] os)) /\ items s2 = Ok (fst (spec_run eqb vnone [] os)) /\
+      len s1 = len s2 /\ first s1 = first s2 /\
+      (forall k, lookup eqb h1 s1 k = lookup eqb h2 s2 k) /\
+      trace eqb h1 vnone t1 os = trace eqb h2 vnone t2 os.
+Proof. exact (@real_table_presized_lemma). Qed.
+
+(* Non-vacuity / illustration: two concrete, different hash functions -- the
+   identity, and the constant 0 (EVERY key collides; 0 is remapped to 1 as the
+   code does) -- and a history using all 15 operations: 20 insertions (the table
+   doubles twice; under the constant hash one chain grows to 3 buckets), deletes,
+   re-insertions into vacated slots, clear, and a second filling.  The layouts
+   differ; outputs, items, len and the per-operation traces are equal. *)
+Definition h_id : N -> N := fun k => k.
+Definition h_collide : N -> N := fun _ => 0%N.
+Definition real_history : list (op N N) :=
+  map (fun i => OInsert (N.of_nat i) (N.of_nat (100 + i))) (seq 0 20)
+  ++ [ODelete 3; OInsert 40 7; OInsert 3 8; OLookup 5; OLookup 99; ODiscard 4; ODiscard 77;
+       OSetDefault 5 9; OSetDefault 50 9; OPopFirst; OUpdate [(60, 1); (2, 2)]; ODictUnion [(61, 1); (6, 6)];
+       OIsSubset [1; 2]; OIsSuperset [1; 2; 19]; OIsSuperset [1; 98];
+       OSetUnion [70; 1; 71; 70]; OSetInter [71; 5; 9; 10; 11; 12; 13; 14; 15; 16; 17; 70; 123];
+       OSetDiff [9; 123]; OSetSymDiff [5; 200; 201]; OIsSubset [200; 10; 11; 12; 13; 14; 15; 16; 17; 70; 71; 201];
+       OClear; OPopFirst]%N
+  ++ map (fun i => OInsert (N.of_nat (7 * i)) (N.of_nat i)) (seq 0 12)
+  ++ [ODelete 14; OInsert 5 5; OPopFirst; OLookup 21]%N.
+
+Definition real_summary (h : N -> N) :=
+  match run N.eqb h 0%N zero_state real_history with
+  | Ok (s, outs) => Some (outs, items s, len s)
+  | _ => None
+  end.
+Definition real_layout (h : N -> N) : list (nat * nat) :=    (* (chains, buckets in the longest chain) after each prefix of interest *)
+  map (fun n => match run N.eqb h 0%N zero_state (firstn n real_history) with
+                | Ok (s, _) => (nb s, max_chain s) | _ => (0, 0) end) [20; List.length real_history].
+
+Example real_table_two_hash_functions :
+  eq_ok N.eqb /\
+  h_id 1%N <> h_collide 1%N /\
+  real_summary h_id = real_summary h_collide /\
+  real_summary h_id =
+    Some (snd (spec_run N.eqb 0%N [] real_history), Ok (fst (spec_run N.eqb 0%N [] real_history)),
+          List.length (fst (spec_run N.eqb 0%N [] real_history))) /\
+  option_map (fun x => (snd (fst x), snd x)) (real_summary h_collide) =
+    Some (Ok [(7, 1); (21, 3); (28, 4); (35, 5); (42, 6); (49, 7); (56, 8); (63, 9); (70, 10); (77, 11); (5, 5)]%N, 11) /\
+  trace N.eqb h_id 0%N zero_state real_history = trace N.eqb h_collide 0%N zero_state real_history /\
+  (exists tr, trace N.eqb h_id 0%N zero_state real_history = Ok tr /\ List.length tr = List.length real_history) /\
+  real_layout h_id = [(4, 1); (2, 1)] /\
+  real_layout h_collide = [(4, 3); (2, 2)].
+Proof.
+  split; [exact N.eqb_eq|].
+  split; [vm_compute; discriminate|].
+  vm_compute. repeat split. eexists. split; reflexivity.
+Qed.
